@@ -62,7 +62,9 @@ pub fn run(opts: &Opts) -> i32 {
     let inputs = read_lines(opts.req("in"));
     let mut out = Out::create(opts.req("out"));
     let stride = opts.num("stride", 1) as usize; // keep every stride-th insert case (1 = all)
+    let rstride = opts.num("rstride", 1) as usize; // the same for depot replacements
     let mut counter: usize = 0;
+    let mut rcounter: usize = 0;
     for item in inputs {
         let name = item["name"].as_str().unwrap_or("?").to_string();
         let input = item["input"].clone();
@@ -194,6 +196,10 @@ pub fn run(opts: &Opts) -> i32 {
             // ---- depot replacement
             for (op, depots) in [("rsd", &sds), ("red", &eds)] {
                 for &d in depots.iter() {
+                    rcounter += 1;
+                    if rcounter % rstride != 0 {
+                        continue;
+                    }
                     let r = guarded(|| if op == "rsd" { tour.replace_start_depot(d) } else { tour.replace_end_depot(d) });
                     let base = json!({"ev": "t", "name": name, "op": op, "tour": tids, "dummy": dummy, "depot": nid(&nw, d)});
                     let mut b = base.clone();
